@@ -399,7 +399,7 @@ def run(c, facts, tier):
             n_ = n_["p"]
         return n_["t"] == "fail"
 
-    c.floor("nested parses", len([1 for _, n_ in nested if not _only_fails(n_["inner"])]), 3)
+    c.floor("nested parses", len([1 for _, n_ in nested if not _only_fails(n_["inner"])]), 2)  # the format word and the permission word, however often they are written
     # positive control: a nullary literal does not end at a boundary
     c.control("C05.boundary", not ends_at_boundary(g, {"t": "lit", "l": None, "s": "-empty"}, bnd), "fixture literal('-empty') is reported as unbounded")
     c.control("C05.whole-arg", not consumes_all(g, {"t": "set", "l": None, "cs": peg.cs_in("01234567"), "min": 3, "max": None}), "fixture take_while(3.., octal) is reported as partial")
